@@ -65,6 +65,10 @@ impl BigInt {
 
     pub fn as_int(&self) -> Option<Int> {
         let (sign, u64_digits) = self.0.to_u64_digits();
+        // nint's minimum is -2^64, which takes two u64 digits
+        if sign == num_bigint::Sign::Minus && u64_digits == vec![0, 1] {
+            return Some(Int(-18446744073709551616i128));
+        }
         let u64_digit = match u64_digits.len() {
             0 => Some(BigNum::zero()),
             1 => Some((*u64_digits.first().unwrap()).into()),
